@@ -659,7 +659,7 @@ def main(tier: str, seed: int) -> int:
         chk.notes.append(f"scenario {name}: {n} steps recorded in {time.time() - t0:.1f}s")
     phase("scenarios")
     # (d) TLC judges
-    res = tlc.validate("ArpIcmpTrace", traces, chunk=8 if quick else 30, parallel=8)
+    res = tlc.validate("ArpIcmpTrace", traces, chunk=12 if quick else 30, parallel=8)
     KNOWN_CLAUSE = "UnicastToResolvedMac"  # known finding: the canonical (single) clause name whenever it is among the failing ones
 
     def clause_of(fail) -> str:
@@ -689,7 +689,7 @@ def main(tier: str, seed: int) -> int:
         if not again:
             break
         beyond["re_examined"] += len(again)
-        r2 = tlc.validate("ArpIcmpTrace", again, chunk=8 if quick else 30, parallel=8)
+        r2 = tlc.validate("ArpIcmpTrace", again, chunk=12 if quick else 30, parallel=8)
         todo = []
         for t2, (reached, length), st in zip(again, r2["results"], r2["stuck"]):
             if reached == length + 1:
